@@ -20,7 +20,8 @@ LOOKX = common.LOOK + ("Iterator>::next", "IntoIterator>::into_iter", "]>::iter"
                        "Iterator>::rev", "HashMap::<K, V, S>::iter", "Vec::<T, A>::iter",
                        "iter::Iterator::map", "iter::Iterator::cloned", "iter::Iterator::copied",
                        "iter::Iterator::chain", "iter::Iterator::rev", "iter::IntoIterator::into_iter")
-MUTATORS_ADD = ("push", "insert", "extend", "push_back", "push_front", "insert_mut", "append")
+MUTATORS_ADD = ("push", "insert", "extend", "extend_from_slice", "push_back", "push_front", "insert_mut", "append")
+BULK = ("::extend", "::extend_from_slice", "::append")
 MUTATORS_DEL = ("remove", "clear", "retain", "truncate", "pop", "drain", "swap_remove", "shift_remove", "take",
                 "split_off", "dedup")
 
@@ -309,9 +310,9 @@ def _extend(r, r2, key, want, b, pr, operand, bb, idx, fi, fi_input, fields, lib
                    "skip a level", first[0].where(), witness=P.witness(b, 0, esc[0], [c.bb for c in first]))
         elif not all(b.dominates(first[0].bb, c.bb) for c in rest):
             r2.bad(key + "#order", "the previous input is not the first element of the parent chain", first[0].where())
-        elif any(not b.in_loop(c.bb) and not (c.name or "").endswith("::extend") for c in rest) or \
-                any(_guarded_in_loop(b, c) for c in rest if not (c.name or "").endswith("::extend")) or \
-                any((c.name or "").endswith("::extend") and not b.dominates(c.bb, bb) for c in rest):
+        elif any(not b.in_loop(c.bb) and not (c.name or "").endswith(BULK) for c in rest) or \
+                any(_guarded_in_loop(b, c) for c in rest if not (c.name or "").endswith(BULK)) or \
+                any((c.name or "").endswith(BULK) and not b.dominates(c.bb, bb) for c in rest):
             r2.bad(key + "#all-parents", "not every old parent is carried over", rest[0].where())
         else:
             r2.ok(key, "input first, then every old parent", first[0].where())
